@@ -492,8 +492,11 @@ example : tinfo (.su false false (.cons (some "u") flexUnion 0 none (.cons (some
 example : tinfo (.su false false (.cons (some "i") (.scalar 4 4 true) 0 none
     (.cons (some "v") flexUnion2 0 none (.cons (some "t") (.scalar 4 4 true) 0 none .nil)))) = .error .containsFlexible := by
   decide
-/-- NOT diagnosed (by the model as by `decl.c`): the array-element clause of 6.7.2.1p3 — `struct F fa[2];`,
-and through it `struct S { struct F fa[2]; };` (an array type never carries the mark) -/
+/-- STATED LIMIT of the layout model: the array-element clause of 6.7.2.1p3 (`struct F fa[2];`,
+`struct S { struct F fa[2]; };`) is diagnosed by `decl.c:declarator` since fix 878d11a ("array element
+contains flexible array member"), but `Model/Layout.lean:tinfo` (property C06's model) has no such branch in
+its array case and still accepts it; for C10 that diagnostic is covered by the catalogue templates, the corpus
+witness and the `flexible-struct-member` mutation kind, not by a theorem. -/
 example : (tinfo (.su false false (.cons (some "fa") (.array flexStruct (some 2)) 0 none .nil))).toOption.isSome = true := by
   decide
 
